@@ -79,7 +79,8 @@ def order_rules(r, R):
             for x in cs.node["args"]:
                 if is_mut_ref(arg_ty(b, x)):
                     p = mir.op_place(x)
-                    if p is not None and b.through_ref(p)["l"] == acc and not b.through_ref(p)["p"] and cname(cs.node) not in ("std::string::String::push_str", "std::fmt::Write::write_fmt"):
+                    if p is not None and b.through_ref(p)["l"] == acc and (not b.through_ref(p)["p"] or b.through_ref(p)["p"] == ["deref"]) and \
+                            cname(cs.node) not in ("std::string::String::push_str", "std::fmt::Write::write_fmt") and cs.node["callee"].get("path") != getattr(R, "orig_name", None):
                         bad.append(cs)
         r.ob("R9.1.append-only-output", "%s: accumulator _%d" % (fn, acc), not bad, "only modified by push_str / write!" if not bad else
              "also modified by %s" % [cname(x.node) for x in bad], site=(bad or [None])[0], key="R9.1|acc|%s" % ("main" if acc == R.main else "child"))
